@@ -308,4 +308,31 @@ theorem seq_not_bad : ∀ (l : List Out), (∀ o ∈ l, o.bad = false) → (seq 
     | panic s => simp [Out.bad] at ho
     | diverge => simp [Out.bad] at ho
 
+theorem mem_zipIdx {α : Type} : ∀ (l : List α) (i : Nat) (p : Nat × α), p ∈ zipIdx l i → p.2 ∈ l
+  | [], _, _, h => by simp [zipIdx] at h
+  | x :: xs, i, p, h => by
+    simp only [zipIdx, List.mem_cons] at h
+    rcases h with h | h
+    · subst h; simp
+    · exact List.mem_cons_of_mem _ (mem_zipIdx xs (i + 1) p h)
+
+
+theorem convertSchema_not_bad (pn : Bool) : ∀ (chain : List SchemaErrM),
+    chain.all (fun s => !(s.enumField && s.schemaNil)) = true → (convertSchema pn chain).bad = false
+  | [], _ => rfl
+  | x :: xs, h => by
+    simp only [List.all_cons, Bool.and_eq_true] at h
+    have ihx := convertSchema_not_bad pn xs h.2
+    unfold convertSchema
+    cases hcs : convertSchema pn xs with
+    | ok =>
+      simp only
+      have : ¬ (x.enumField = true ∧ x.schemaNil = true) := by
+        intro hxx; have := h.1; simp [hxx.1, hxx.2] at this
+      simp [this]; rfl
+    | err => rfl
+    | panic s => rw [hcs] at ihx; simp [Out.bad] at ihx
+    | diverge => rw [hcs] at ihx; simp [Out.bad] at ihx
+
+
 end KinModel.NoPanic.Traffic
